@@ -130,14 +130,20 @@ def stripWs (s : String) : String := String.ofList (s.toList.filter fun c => !c.
 
 def dslField (g : GlobalConfig) (f : AField) : M Field := do
   let descr := f.description.getD ""
-  let start ← checkU32 f.start
-  let (s, e) ← match f.stop with
-    | none => if f.base == .bool then pure (start, start) else throw (frontErr "front_field_needs_range")
-    | some e => do pure (start, ← checkU32 e)
   let conv : Option FieldConversion := f.conv.map fun
     | .ty p t => .direct (stripWs p) t
     | .enum e t => .enum { cfg := none, description := descr, name := e.name,
                            variants := e.variants.map lowerVariant } t
+  -- `transform_field`: a single-bit address on a non-bool field is refused before any number is read
+  let (s, e) ← match f.stop with
+    | none =>
+      if f.base == .bool then do
+        let start ← checkU32 f.start
+        pure (start, start)
+      else throw (frontErr "front_field_needs_range")
+    | some e => do
+      let start ← checkU32 f.start
+      pure (start, ← checkU32 e)
   pure { cfg := f.cfg, description := descr, name := f.name,
          access := f.access.getD g.defaultFieldAccess, base := f.base, conv := conv, start := s, stop := e }
 
@@ -156,15 +162,19 @@ def dslOverride (target : String) (ov : AOverride) : M ObjectOverride := do
   | _ => throw (frontErr "front_ref_ref")
   if !ov.illegal.isEmpty then throw (frontErr "front_override_layout")
   let address ← ov.address.mapM checkAddr
-  let rep ← checkRepeat ov.repeat_
   match ov.kind with
-  | "block" => pure (.block { name := target, addressOffset := address, repeat_ := rep })
+  | "block" =>
+    let rep ← checkRepeat ov.repeat_
+    pure (.block { name := target, addressOffset := address, repeat_ := rep })
   | "register" =>
+    -- `transform_register_override`: access, address, overlap flag, reset value, repeat - in that order
     let reset ← dslReset ov.reset
+    let rep ← checkRepeat ov.repeat_
     pure (.register { name := target, access := ov.access, address := address,
                       allowAddressOverlap := ov.allowAddressOverlap.getD false,
                       reset := reset, repeat_ := rep })
   | _ =>
+    let rep ← checkRepeat ov.repeat_
     pure (.command { name := target, address := address,
                      allowAddressOverlap := ov.allowAddressOverlap.getD false, repeat_ := rep })
 
@@ -179,11 +189,12 @@ def dslObj (g : GlobalConfig) : AObj → M Object
         addressOffset := off.getD 0, repeat_ := rep }
     pure (.block h os')
   | .register c access bo bito address size reset rep abo aao fields => do
-    let fs ← fields.mapM (dslField g)
+    -- `transform_register`: address, size, reset value, repeat, then the fields
     let address ← checkAddr address
     let size ← checkU32 size
     let reset ← dslReset reset
     let rep ← checkRepeat rep
+    let fs ← fields.mapM (dslField g)
     let r : Register :=
       { cfg := c.cfg, description := c.description.getD "", name := c.name,
         access := access.getD g.defaultRegisterAccess, byteOrder := bo,
@@ -201,11 +212,12 @@ def dslObj (g : GlobalConfig) : AObj → M Object
           sizeBitsOut := 0, repeat_ := none, inFields := [], outFields := [] }
       pure (.command x)
     else do
-      let i ← (fin.getD []).mapM (dslField g)
-      let o ← (fout.getD []).mapM (dslField g)
+      -- `transform_command`: address, sizes, repeat, then the two field lists
       let si ← checkU32 (si.getD 0)
       let so ← checkU32 (so.getD 0)
       let rep ← checkRepeat rep
+      let i ← (fin.getD []).mapM (dslField g)
+      let o ← (fout.getD []).mapM (dslField g)
       let x : Command :=
         { cfg := c.cfg, description := c.description.getD "", name := c.name,
           address := address, byteOrder := bo, bitOrder := bito.getD g.defaultBitOrder,
